@@ -1109,3 +1109,11 @@ TWINS = [
       "                    if not ds.filter.all[evid]:\n"
       "                        continue\n")),
 ]
+
+# mutant that re-introduces the repaired defect F02 (applies to the fixed tree)
+MUTANTS = list(MUTANTS) + [
+    ("scalar branch selects with the boolean mask (F02 returns)",
+     "dclab/rtdc_dataset/export.py",
+     ("hw.store_feature(feat, data[indices])",
+      "hw.store_feature(feat, data[filtarr])"), "R2."),
+]
